@@ -39,7 +39,9 @@ def main():
         run = meta["demo"]["run"].replace("<repo>", wt).replace("<worktree>", wt)
         demo_dst = meta["demo"].get("path_in_repo", "").split()[0] if meta["demo"].get("path_in_repo") else ""
         demo_src = [f for f in os.listdir(out) if f.endswith("_test.go") or f.endswith(".go")]
-        cwd = out if (re.search(r"(^|&&|;)\s*cd ", run) or run.strip().startswith("cp ")) else wt
+        if demo_dst and demo_dst.endswith(".go") and len(demo_src) == 1 and re.match(r"\s*cp \S+ \S+ && ", run) and "cd " not in run:
+            run = re.sub(r"^\s*cp \S+ \S+ && ", "", run)  # the demo file is placed by place()
+        cwd = out if re.search(r"(^|&&|;)\s*cd ", run) else wt
         def place():
             if demo_dst and demo_dst.endswith(".go") and len(demo_src) == 1:
                 shutil.copy(os.path.join(out, demo_src[0]), os.path.join(wt, demo_dst))
